@@ -209,7 +209,7 @@ PROPS = {
         "distinct by hash of the case JSON; non-trivial iff at least two threads sent state-changing requests to the same CA and background tasks ran during the concurrent phase",
         "floors": {"__nontrivial__": 0.70, "same_ca_from_2plus_threads": 0.80, "tasks_ran_concurrently": 0.80, "roa_added": 0.85, "keyroll_started": 0.30, "publisher_files": 0.45, "disk": 0.20, "daemon": 0.04},
         "assumptions": ["in nine cases of ten requests enter through the manager calls behind the HTTP routes on plain threads (the daemon's worker pool calls the same functions); in one of ten they go over HTTP to the real daemon", "the OS schedules the threads; interleavings are perturbed at the hook points, not enumerated",
-                        "a request or task that does not return within 120 s of wall-clock time counts as a hang; it is reported only if it shows again when the shrunk case is re-run",
+                        "a request or task that does not return within 90 s of wall-clock time counts as a hang; it is reported only if it shows again when the shrunk case is re-run",
                         "key-roll starts may be refused (a roll is already in progress): either answer is serial"],
         "technique": "property-based concurrency testing with commuting request sets: generated multi-threaded request schedules against the real runtime plus scheduler stand-in, with the sequential reference model and the relying-party walk as oracle after quiescence (everything asked for is present once, nothing else, tree valid, RRDP/rsync/publisher views agree), "
         "per-request answers compared with the serial answer, watchdog for completion; the same generator and oracle against the real daemon over HTTP (its worker and scheduler threads), plus 'every effective ROA request is in the command history exactly once'",
@@ -288,14 +288,17 @@ PROPS = {
     "C09": {
         "level": "exploration",
         "cases": {"quick": 4000, "thorough": 80000},
-        "rule": "two kinds of generated cases: (a) sequences of 5-60 schedule (all five modes, explicit and implicit times, past and future) / claim / finish / reschedule / long-running-requeue / clock-advance / re-open operations on the task queue "
+        "rule": "three kinds of generated cases: (a) sequences of 5-60 schedule (all five modes, explicit and implicit times, past and future) / claim / finish / reschedule / long-running-requeue / clock-advance / re-open operations on the task queue "
         "(memory and disk) against a reference model; (b) world histories on disk after which the daemon stops - cleanly or as a crash while exactly k in 0..3 tasks are claimed and running - followed by the restart procedure "
-        "(re-queue running tasks, QueueStartTasks) and a pump; distinct by hash of the case JSON; non-trivial iff (a) a 'soonest' schedule met an existing task, a claim chose among several due tasks or a running task was finished by a schedule, "
-        "or (b) at least one task was running at the stop",
-        "floors": {"__nontrivial__": 0.50, "queue:disk": 0.25, "queue:memory": 0.25, "stopped_with_running:1": 0.03, "stopped_with_running:2": 0.02, "crash_stop": 0.10},
-        "assumptions": W_ASSUME + ["several pending entries of one task name (possible after re-scheduling a running task while the same name was scheduled again) are not generated in the queue model", "tasks of deleted CAs are dropped legitimately"],
-        "technique": "model-based property testing of the task queue (reference model: earliest due task first, soonest modes keep the earlier time, if-missing adds nothing, nothing lost or duplicated) plus crash/restart histories whose oracle is: every pending or running task is pending after the restart procedure and is executed, recurring tasks are scheduled again, and the C01 oracle holds afterwards",
+        "(re-queue running tasks, QueueStartTasks) and a pump; (c) about one case in sixty: the real daemon (start_krill_daemon, disk storage, testbed mode, one CA created through the API) receives 1-5 requests (ROA, ASPA, key roll) and is stopped "
+        "right after the last one, 0-3 of the tasks pending at that moment are moved to the running scope as a claim does (what a crash in the middle of those tasks leaves), and a new daemon is started on the same directory, followed by 0-3 further requests; "
+        "in (a) a re-scheduling of a running task while a task of the same name is pending is the last, checked step of a case; distinct by hash of the case JSON; non-trivial iff (a) a 'soonest' schedule met an existing task, a claim chose among several due tasks, "
+        "a running task was finished by a schedule or a running task was re-scheduled next to a pending one of its name, or (b, c) at least one task was pending or running at the stop",
+        "floors": {"__nontrivial__": 0.50, "queue:disk": 0.25, "queue:memory": 0.25, "stopped_with_running:1": 0.03, "stopped_with_running:2": 0.02, "crash_stop": 0.10, "reschedule_with_pending_follow_up": 0.03, "daemon_restart": 0.005},
+        "assumptions": W_ASSUME + ["two pending entries of one task name arise only from re-scheduling a running task while the same name was scheduled again; the queue model checks that step and ends the case there", "tasks of deleted CAs are dropped legitimately",
+                                   "(c) quiescence of the real daemon is read off its task queue on disk (nothing running, nothing due within 1.5 s, twice in a row more than one idle period of the scheduler apart)"],
+        "technique": "model-based property testing of the task queue (reference model: earliest due task first, soonest modes keep the earlier time, if-missing adds nothing, nothing lost or duplicated) plus crash/restart histories whose oracle is: every pending or running task is pending after the restart procedure and is executed, recurring tasks are scheduled again, and the C01 oracle holds afterwards; the same for the real daemon's own start-up procedure and scheduler thread (queue drains, nothing stays marked running, acknowledged changes are in the repository per relying-party walk, recurring tasks pending)",
         "level_text": "Exploration by generated operation sequences and generated stop instants (number of running tasks at the stop is a generated parameter, so the single-running-task case is always covered). Sampling, not proof; 'eventually executed' is decided as 'executed by the deterministic pump once due'.",
-        "level_note": "Trusted base: the queue reference model in harness/src/props/c09.rs, the pump. The real scheduler thread is exercised by C18, not here.",
+        "level_note": "Trusted base: the queue reference model in harness/src/props/c09.rs, the pump, the relying-party walk. The real start-up procedure and scheduler thread are exercised by the daemon part (props/c09d.rs) and by C18.",
     },
 }
